@@ -179,6 +179,7 @@ func init() {
 	ss := "serialization.go"
 	mtl := map[string]string{"len(chain)": "n", "etype": "etype", "X509LogEntryType": "acX509EntryType", "PrecertLogEntryType": "acPrecertEntryType",
 		"IsPreIssuer(issuer)": "issuerIsPreIssuer"}
+	mtlC := map[string]string{"$LogEntryType": "etype", "X509LogEntryType": "acX509EntryType", "PrecertLogEntryType": "acPrecertEntryType"}
 	mk := func(name string, markers []string, params string) unit {
 		return unit{name, condKernel(ss, "MerkleTreeLeafFromChain", markers, name, params, Spec{Kind: "i64", Repl: mtl})}
 	}
@@ -189,15 +190,19 @@ func init() {
 			Spec{Kind: "i64", Repl: map[string]string{"li.TimeSource.Now().UnixNano()": "nowNanos", "millisPerNano": "millisPerNano"}})},
 		{"acX509EntryType", constKernel("types.go", "X509LogEntryType", "acX509EntryType", intLit)},
 		{"acPrecertEntryType", constKernel("types.go", "PrecertLogEntryType", "acPrecertEntryType", intLit)},
-		{"etypeOf", ifElseConst(hh, "addChainInternal", "isPrecert", "etype", "etypeOf",
-			map[string]string{"ct.PrecertLogEntryType": "acPrecertEntryType", "ct.X509LogEntryType": "acX509EntryType"})},
+		{"etypeOf", semConstChoice(hh, "addChainInternal", "$bool", "ct.PrecertLogEntryType", "ct.X509LogEntryType", "etypeOf", "acPrecertEntryType", "acX509EntryType")},
 		// canonical vocabulary (extract/canon.go): `$QueueLeaf` = the local holding the QueueLeaf response, `$decl(T)` = the local declared `var _ T`
 		{"sctLeafSource", semStmtFact(hh, "addChainInternal", `tls\.Unmarshal\((.*),&\$decl\(ct\.MerkleTreeLeaf\)\)`, "sctLeafSource")},
 		{"sctBuiltFrom", semStmtFact(hh, "addChainInternal", `buildV1SCT\(\$\*logInfo\.signer,(.*)\)`, "sctBuiltFrom")},
 		// ---- ct.MerkleTreeLeafFromChain
 		mk("mtlEmpty", []string{"len(chain) == 0"}, "(n : Int)"),
-		mk("mtlIsX509", []string{"etype == X509LogEntryType"}, "(etype : Int)"),
-		mk("mtlNotPrecert", []string{"etype != PrecertLogEntryType"}, "(etype : Int)"),
+		// the X.509 entry is returned / the entry type is refused under these conditions on the entry type (reach conditions
+		// of the first successful return and of the "unknown LogEntryType" error, restricted to the conjuncts on `etype`)
+		{"mtlIsX509", semReach(ss, "MerkleTreeLeafFromChain", "func", firstOKReturn(ss, "MerkleTreeLeafFromChain"), []string{"$LogEntryType"},
+			"mtlIsX509", "(etype : Int)", Spec{Kind: "i64", Repl: mtlC})},
+		{"mtlNotPrecert", semReach(ss, "MerkleTreeLeafFromChain", "func",
+			func(r canonReturn) bool { return len(r.results) == 2 && strings.Contains(r.results[1], "unknownLogEntryType") }, []string{"$LogEntryType"},
+			"mtlNotPrecert", "(etype : Int)", Spec{Kind: "i64", Repl: mtlC})},
 		mk("mtlNoIssuer", []string{"len(chain) < 2"}, "(n : Int)"),
 		mk("mtlIsPreIssuer", []string{"IsPreIssuer(issuer)"}, "(issuerIsPreIssuer : Bool)"),
 		mk("mtlNoFinalIssuer", []string{"len(chain) < 3"}, "(n : Int)"),
@@ -209,16 +214,29 @@ func init() {
 		{"mtlTBSArgs", exprFact(ss, "MerkleTreeLeafFromChain", `x509\.BuildPrecertTBS\((.*)\)`, "mtlTBSArgs")},
 		{"mtlFields", keyValues(ss, "MerkleTreeLeafFromChain", "mtlFields")},
 		// ---- util.buildLogLeaf, directIssuanceChainService.BuildLogLeaf
-		{"idHashOf", exprFact("trillian/util/log_leaf.go", "buildLogLeaf", `sha256\.Sum256\((.*)\)`, "idHashOf")},
+		{"idHashOf", semStmtFact("trillian/util/log_leaf.go", "buildLogLeaf", `sha256\.Sum256\((.*)\)`, "idHashOf")},
 		{"leafCertIdx", indexFact("trillian/ctfe/services.go", "directIssuanceChainService.BuildLogLeaf", `util\.BuildLogLeaf\(logPrefix, \*merkleLeaf, 0, raw\[(\d+)\], raw\[(\d+):\], isPrecert\)`, 0, "leafCertIdx")},
 		{"extraFromIdx", indexFact("trillian/ctfe/services.go", "directIssuanceChainService.BuildLogLeaf", `util\.BuildLogLeaf\(logPrefix, \*merkleLeaf, 0, raw\[(\d+)\], raw\[(\d+):\], isPrecert\)`, 1, "extraFromIdx")},
 		// ---- buildV1SCT, GetCTLogID, tls.SignatureAlgorithmFromPubKey
-		{"sctFields", keyValues("trillian/ctfe/serialize.go", "buildV1SCT", "sctFields")},
-		{"sctLogIDOf", exprFact("trillian/ctfe/serialize.go", "buildV1SCT", `GetCTLogID\((.*)\)`, "sctLogIDOf")},
-		{"sctSigner", exprFact("trillian/ctfe/serialize.go", "buildV1SCT", `(\w+)\.Sign\(rand\.Reader, h\[:\], crypto\.SHA256\)`, "sctSigner")},
+		{"sctFields", semKeyValues("trillian/ctfe/serialize.go", "buildV1SCT", "sctFields")},
+		{"sctLogIDOf", semStmtFact("trillian/ctfe/serialize.go", "buildV1SCT", `GetCTLogID\((.*)\)`, "sctLogIDOf")},
+		{"sctSigner", semStmtFact("trillian/ctfe/serialize.go", "buildV1SCT", `:=(\$[\w.*\[\]]+?)\.Sign\(rand\.Reader,`, "sctSigner")},
 		{"logIDOf", exprFact("trillian/ctfe/structures.go", "GetCTLogID", `sha256\.Sum256\((.*)\)`, "logIDOf")},
 		{"logIDBytes", exprFact("trillian/ctfe/structures.go", "GetCTLogID", `pubBytes, err := (.*)`, "logIDBytes")},
 		{"tlsSHA256", constKernel("tls/types.go", "SHA256", "tlsSHA256", intLit)},
 		{"sigAlgOfKey", typeSwitchTable("tls/types.go", "SignatureAlgorithmFromPubKey", "sigAlgOfKey", map[string]int{"Anonymous": 0, "RSA": 1, "DSA": 2, "ECDSA": 3})},
 	}})
+}
+
+// firstOKReturn selects the first return of fn whose last result is nil.
+func firstOKReturn(rel, fn string) func(r canonReturn) bool {
+	return func(r canonReturn) bool {
+		v := canonOf(rel, fn)
+		for _, x := range v.returns {
+			if len(x.results) > 0 && x.results[len(x.results)-1] == "nil" {
+				return len(x.results) == len(r.results) && strings.Join(x.results, ",") == strings.Join(r.results, ",") && len(x.pc) == len(r.pc)
+			}
+		}
+		return false
+	}
 }
